@@ -131,12 +131,14 @@ impl Space for NameRule {
             })
             .collect();
         let er = if tf { ", Er" } else { "" };
+        // a further counterpart converted through a quick return: its body is replaced, so it asks nothing of the members (seed C08-07)
+        let qr = ctx.flag();
         let input = if host == 0 {
-            format!("#[{t}(T as {{}}{er})]\nstruct S({attrs}i32);\n")
+            format!("#[{t}(T as {{}}{er})]\n{}struct S({attrs}i32);\n", if qr { "#[owned_into(W as {}| return todo!())]\n#[from_ref(W as {}| return todo!())]\n" } else { "" })
         } else {
-            format!("#[{t}(T{er})]\nenum S {{ #[type_hint(as {{}})] A({attrs}i32), B }}\n")
+            format!("#[{t}(T{er})]\n{}enum S {{ #[type_hint(as {{}})] A({attrs}i32), B }}\n", if qr { "#[owned_into(W| return todo!())]\n#[from_ref(W| return todo!())]\n" } else { "" })
         };
-        let tags = vec![format!("host={}", ["tuple-struct", "tuple-variant"][host]), format!("trait={}", t), format!("members={}", ms.iter().map(|m| format!("{}{}/{}", m.0, if m.1 { "|T" } else { "" }, ["name+expr", "expr", "name"][m.2])).collect::<Vec<_>>().join("+")), format!("expect={}", if uncovered.is_empty() { "accept" } else { "reject" })];
+        let tags = vec![format!("host={}", ["tuple-struct", "tuple-variant"][host]), format!("trait={}", t), format!("members={}", ms.iter().map(|m| format!("{}{}/{}", m.0, if m.1 { "|T" } else { "" }, ["name+expr", "expr", "name"][m.2])).collect::<Vec<_>>().join("+")), format!("expect={}", if uncovered.is_empty() { "accept" } else { "reject" }), format!("quick-return-counterpart={}", qr)];
         Some(NCase { input, uncovered, tags })
     }
     fn check(&self, c: NCase, choices: &[u32], rep: &Report) {
